@@ -9,6 +9,11 @@ TRUST = ("Trusted base: go/parser, go/types and the go/ssa builder of x/tools v0
          "Nothing is executed; a verdict is about the source as type-checked for linux/amd64, non-test files.")
 
 CLAIMS = {
+ "C03": dict(
+   technique="static analysis: factory/constructor/code tables over go/ssa, header layout against the MS-CIFS field table with entailed offsets, bit-lane inverse of GetPID/SetPID, count/length framing guards and a module-wide who-writes pair invariant, and an accumulate-versus-reset dominance rule for repeatable Marshal",
+   text="All 114 (code, reply flag) dispatch cases are enumerated from the two factories and each must return the constructor that sets that very code; the header encoder and decoder are compared field by field with the MS-CIFS 2.2.3.1 table (offsets entailed in the context of each read, widths, little-endian, 8-byte SecurityFeatures in every implementation, total 32); the word count is emitted only under the WordCount == len(Words) guard and every writer of Data.Bytes keeps ByteCount equal to its length; Message.Marshal is header then command; and Marshal is repeatable because every call that appends to the embedded parameter/data blocks is dominated by an unconditional reset to fresh blocks and the envelope encoders never write their own fields. These are structural facts that hold for every field value and every number of Marshal calls.",
+   note=TRUST + " Additional for C03: arbitrary block contents surviving the round trip is C04/C06; behaviour beyond 255 words / 65535 bytes is outside the stated domain; the MS-CIFS header table is transcribed in the checker (rules/c03.go).",
+   design="§4 C03"),
  "C04": dict(
    technique="static analysis: wire-layout extraction from go/ssa def-use chains (encoder append chains vs decoder field stores) compared per command type",
    text="For each of the 115 command structures the encoder's and the decoder's wire layouts are extracted from the code and compared atom by atom (same fields, order, width, byte order, nested type), the decoder's offsets are checked to be the running sum of the widths before them, every declared wire field must appear once in each direction in declaration order with the width of its type, AndX commands must consume the AndX block first, and a nested decoder must be handed a window at least as large as what it consumes. These are structural necessary conditions of the round trip that hold for every field value at once; value-level consistency of length fields and the inverse-ness of nested types are not decided here.",
